@@ -78,6 +78,9 @@ impl<'a, TPrinter: Printer> FileExecutor<'a, TPrinter> {
 
         for reader in std::mem::take(&mut self.readers).into_iter() {
             for line in reader.lines() {
+                #[cfg(feature="verif_hooks")]
+                crate::verif_hooks::probe("file_line");
+
                 if !self.running.load(Ordering::SeqCst) {
                     break;
                 }
@@ -211,6 +214,9 @@ impl<'a> FollowFileExecutor<'a> {
         }
 
         for input_line in FollowFileIterator::new(self.reader.take().unwrap()) {
+            #[cfg(feature="verif_hooks")]
+            crate::verif_hooks::probe("follow_line");
+
             if !self.running.load(Ordering::SeqCst) {
                 break;
             }
